@@ -29,6 +29,12 @@ META = {
                     "characters in either case; a non-alphabet character at every position of 8- and 12-character strings",
             "polymod lemmas": "left fold through the first value for prefixes of 0..3 symbols; linearity of the last six symbols from "
                               "every 30-bit state",
+            "bc32 substitution": "affine lemma on the real bech32_polymod (XOR-affine normal form) and a non-zero syndrome for every "
+                                 "single-character substitution at every position of every text length of a 0..40-byte payload "
+                                 "(6..70 characters), every two-character substitution for 0..12-byte payloads; one polymod step from "
+                                 "every 30-bit state is injective and carries symbol differences (length-independent); the real "
+                                 "bc32decode returns bytes only when the polynomial value (arbitrary) is 0x3FFFFFFF, texts of 6..26 "
+                                 "characters",
             "chunking": "every encoded-text length L in 8..200 with every max_size_per_chunk in [1,2000] (symbolic); animate=False for "
                         "L = 8 mod 16",
             "bcur": "payload lengths {0,1,5,23,24,40}: BCURSingle (with / without checksum) and BCURMulti with every chunk size in "
@@ -42,14 +48,17 @@ META = {
             "bc32": "encode->decode 0..64 bytes (composed polymod) and 0..4 bytes whole real polymod; decode->encode 0..40 bytes; case "
                     "strings 1..14",
             "polymod lemmas": "prefixes of 0..4 symbols",
+            "bc32 substitution": "single substitutions for 0..125-byte payloads (6..206 characters), pairs for 0..30-byte payloads, "
+                                 "acceptance for texts of 6..46 characters",
             "chunking": "L in 8..400 and L in 401..2000 step 27, chunk size symbolic in [1,2000]",
             "bcur": "payload lengths {0,1,5,23,24,40,64,255,256}; sequences for y <= 4; headers / swapped parts / tampered texts for "
                     "more (n,y) shapes (see obligations())",
             "fp": "ceil(float(a)/float(b)) == -(-a//b) for a < 2^12, 1 <= b < 2^8 as a QF_FP query (z3)"}},
     "outside": [
-        "O2b-bc32-substitution (TODO, not registered): detection of every single-character substitution by the 30-bit polymod "
-        "needs the GF(2)-affine normal form that is being added to the engine; here corrupted payload characters are only shown "
-        "to be rejected-or-harmless through the SHA-256 digest (O3-bcur-tamper), i.e. for BCUR strings that carry a checksum",
+        "O2b: substitutions are decided on the checksum polynomial (syndrome != 0) and on what bc32decode accepts for an arbitrary "
+        "polynomial value; texts of more than 206 characters (thorough) rest on the length-independent step lemmas of "
+        "O2b-polymod-step plus the left-fold reading of the loop, an argument on paper that is not itself solver-checked; three or "
+        "more substituted characters are not claimed (the property says 'a corrupted character')",
         "header *string* parsing for arbitrary text (_parse_bcur_helper: lower/strip/split/regex/int()): it is run concretely on the "
         "headers the real encoder produced (payload characters rendered as a placeholder of the same length and character "
         "class); symbolic header fields x, y, checksum enter behind that function (its contract there: x > y is refused)",
@@ -1157,12 +1166,218 @@ def replay_bc32_case(w):
     return {"violated": r != r2, "observed": f"{s!r} -> {r!r}, lower-case form -> {r2!r}"}
 
 
-def ob_bc32_substitution_TODO(*a, **k):
-    """O2b-bc32-substitution (NOT registered in obligations()): every single-character substitution of an encoded string is
-    refused by bc32decode.  Needs the GF(2)-affine normal form of bech32_polymod (engine work in progress): with it, the claim
-    is `syndrome(e) != 0` for every error pattern e with one non-zero symbol, per string length."""
-    raise NotImplementedError("O2b-bc32-substitution: waiting for the XOR-ANF normal form in symx")
+def _syn_expr(e, cols5):
+    acc = 0
+    for b in range(5):
+        if cols5[b]:
+            acc = acc ^ s_ite(((e >> b) & 1) != 0, cols5[b], 0)
+    return acc
 
+
+def _bc32_subst_path(m, two):
+    """O2b: affine lemma for the real bech32_polymod on [0] + m symbols (XOR-affine normal form, syntactic), then one z3 query per
+    position: a non-zero 5-bit difference at that position changes the polynomial value (syndrome != 0), so at most one of the two
+    texts has the value bc32decode demands.  `two`: also every pair of positions (thorough, short texts)."""
+    from symx import anf
+    mods()
+    real = _STATE["real_polymod"]
+    A = [SI.var(f"a[{i}]", 0, 31) for i in range(m)]
+    B = [SI.var(f"b[{i}]", 0, 31) for i in range(m)]
+    sp = anf.STRICT
+    ma = anf.forms(real([0] + A), 30, sp)
+    mb = anf.forms(real([0] + B), 30, sp)
+    mab = anf.forms(real([0] + [x ^ y for x, y in zip(A, B)]), 30, sp)
+    p0 = real([0] * (m + 1))
+    lemma = isinstance(p0, int) and all((x ^ y ^ z) == ((p0 >> i) & 1) for i, (x, y, z) in enumerate(zip(ma, mb, mab)))
+    check(lemma, "affine lemma: polymod([0]+a^b) == polymod([0]+a) ^ polymod([0]+b) ^ polymod(0..0) (normal forms differ)",
+          witness=lambda env: {"kind": "affine", "m": m})
+    c0, cols = anf.columns(ma)
+    check(c0 == p0, "constant part of the normal form is not polymod(0..0)", witness=lambda env: {"kind": "affine", "m": m})
+    col = [[cols.get(sp.atom_index(A[i].n, b), 0) for b in range(5)] for i in range(m)]
+    e1 = SI.var("e1", 0, 31)
+    e2 = SI.var("e2", 0, 31)
+    S1 = [_syn_expr(e1, col[i]) for i in range(m)]
+    for i in range(m):
+        check(s_or(e1 == 0, S1[i] != 0), "a substitution of one character leaves the bc32 checksum polynomial unchanged",
+              witness=lambda env, i=i: {"kind": "subst", "m": m, "subs": [[i, env["e1"]]]})
+    if two:
+        S2 = [_syn_expr(e2, col[i]) for i in range(m)]
+        for i in range(m):
+            for j in range(i + 1, m):
+                check(s_or(s_and(e1 == 0, e2 == 0), (S1[i] ^ S2[j]) != 0),
+                      "a substitution of two characters leaves the bc32 checksum polynomial unchanged",
+                      witness=lambda env, i=i, j=j: {"kind": "subst", "m": m, "subs": [[i, env["e1"]], [j, env["e2"]]]})
+    return "ok"
+
+
+def ob_bc32_subst(ms, two=False):
+    runs = [sym_run(lambda: _bc32_subst_path(m, two), timeout_ms=60000, max_violations=8, expect_classes=["ok"]) for m in ms]
+    r = merge_runs(runs)
+    r["sample"] = {"text lengths (characters incl. checksum)": list(ms), "difference": "symbolic non-zero 5-bit value at each position in turn"
+                   + (" and at every pair of positions" if two else "")}
+    return r
+
+
+def _bc32_step_path():
+    """length-independent part: one step of the real polymod loop from an ARBITRARY 30-bit state S (entered as the first list
+    element S ^ 32, see O2-polymod-fold) (a) moves a difference of the fed symbol into the state unchanged and (b) is injective in
+    the state.  With the left-fold reading of the loop (assumption, solver-checked for short prefixes) a single substituted
+    symbol therefore changes the final value at every text length."""
+    mods()
+    real = _STATE["real_polymod"]
+    S = SI.var("S", 0, (1 << 30) - 1)
+    T = SI.var("T", 0, (1 << 30) - 1)
+    v = SI.var("v", 0, 31)
+    u = SI.var("u", 0, 31)
+    wit = lambda env: {"kind": "step", "S": env["S"], "T": env["T"], "v": env["v"], "u": env["u"]}  # noqa
+    a = real([S ^ 32, v])
+    b = real([S ^ 32, u])
+    c = real([T ^ 32, v])
+    check((a ^ b) == (v ^ u), "one polymod step does not carry the symbol difference into the state unchanged", witness=wit)
+    check(s_or(S == T, a != c), "one polymod step maps two different states to the same state", witness=wit)
+    check(s_and(a >= 0, a < (1 << 30)), "polymod state leaves 30 bits", witness=wit)
+    return Out("ok", a)
+
+
+def ob_bc32_step():
+    r = sym_run(_bc32_step_path, timeout_ms=120000, expect_classes=["ok"],
+                gen_env=lambda rng: {"S": rng.randrange(1 << 30), "T": rng.randrange(1 << 30), "v": rng.randrange(32), "u": rng.randrange(32)},
+                native=lambda env: spec_polymod([env["S"] ^ 32, env["v"]]), n_val=8)
+    r["sample"] = {"S, T": "symbolic 30-bit states", "v, u": "symbolic 5-bit symbols"}
+    return r
+
+
+def _bc32_accept_path(m):
+    """what the real bc32decode accepts, with the checksum polynomial an arbitrary value P of the recorded argument list: a text
+    of m bech32 characters is decoded (bytes returned) only if P == 0x3FFFFFFF and the polynomial was evaluated on [0] + symbols"""
+    be, _ = mods()
+    P = SI.var("P", 0, (1 << 30) - 1)
+    calls = []
+
+    def probe(values):
+        calls.append(list(values))
+        return P
+    be.bech32_polymod = probe
+    try:
+        s = SStr.sym("s", m)
+        syms = [c.sym for c in s.items]
+
+        def wit(env):
+            return {"kind": "accept", "s": "".join(ALPHA[env[f"s[{i}]"]] for i in range(m)), "P": env["P"]}
+        try:
+            r = be.bc32decode(s)
+        except core.Unsupported:
+            raise
+        except Exception:
+            r = None
+        if r is None:
+            check(True, "refused")
+            return "none"
+        check(P == BC32_CONST, "bc32decode returns bytes although the checksum polynomial is not 0x3FFFFFFF", witness=wit)
+        ok = len(calls) >= 1 and len(calls[-1]) == m + 1 and isinstance(calls[-1][0], int) and calls[-1][0] == 0 and \
+            all((isinstance(x, SI) and x.n is y.n) for x, y in zip(calls[-1][1:], syms))
+        check(ok, "bc32decode does not evaluate the checksum polynomial on [0] + the symbols of the text", witness=wit)
+        return "bytes"
+    finally:
+        be.bech32_polymod = _STATE["real_polymod"]
+
+
+def ob_bc32_accept(ms):
+    runs = []
+    for m in ms:
+        n_ok = any(-(-8 * n // 5) + 6 == m for n in range(0, m))
+        runs.append(sym_run(lambda: _bc32_accept_path(m), timeout_ms=60000, expect_classes=["none", "bytes"] if n_ok else ["none"]))
+    r = merge_runs(runs)
+    r["sample"] = {"text": "m symbolic bech32 characters (either case flag)", "m": list(ms), "polymod": "arbitrary 30-bit value"}
+    return r
+
+
+def replay_bc32_subst(w):
+    """native: genuine encodings of the given text length, the recorded substitution applied, bc32decode must not return bytes"""
+    from buidl import bech32
+    import random
+    kind = w.get("kind")
+    if kind == "affine":
+        m = w["m"]
+        rng = random.Random(m)
+        for _ in range(200):
+            a = [rng.randrange(32) for _ in range(m)]
+            b = [rng.randrange(32) for _ in range(m)]
+            lhs = bech32.bech32_polymod([0] + [x ^ y for x, y in zip(a, b)])
+            if lhs != bech32.bech32_polymod([0] + a) ^ bech32.bech32_polymod([0] + b) ^ bech32.bech32_polymod([0] * (m + 1)):
+                return {"violated": True, "observed": f"bech32_polymod is not affine at length {m + 1}: a={a} b={b}"}
+        return {"violated": False, "observed": "affine on 200 random pairs"}
+    if kind == "step":
+        S, T, v, u = w["S"], w["T"], w["v"], w["u"]
+        a = bech32.bech32_polymod([S ^ 32, v])
+        b = bech32.bech32_polymod([S ^ 32, u])
+        c = bech32.bech32_polymod([T ^ 32, v])
+        ra = spec_polymod([S ^ 32, v])
+        bad = (a ^ b) != (v ^ u) or (S != T and a == c) or not 0 <= a < (1 << 30) or a != ra
+        return {"violated": bad, "observed": f"step({S:#x},{v}) = {a:#x} (reference {ra:#x}), step({S:#x},{u}) = {b:#x}, step({T:#x},{v}) = {c:#x}"}
+    if kind == "accept":
+        s = w["s"]
+        m = len(s)
+        # rebuild the class on the real polynomial: texts whose real polymod is / is not the constant
+        out = []
+        if m >= 6 and w.get("P") is not None:
+            # the last six symbols act bijectively on the 30-bit value: choose them so that the REAL polynomial equals the model's P
+            syms = [ALPHA.find(c) for c in s]
+            pm = spec_polymod([0] + syms[:-6] + [0] * 6) ^ (w["P"] & 0x3FFFFFFF)
+            s = s[:-6] + "".join(ALPHA[(pm >> 5 * (5 - i)) & 31] for i in range(6))
+        for cand in (s, s[:-6] + _real_checksum(s[:-6]) if m >= 6 else s):
+            pm = bech32.bech32_polymod([0] + [ALPHA.find(c) for c in cand])
+            try:
+                r = bech32.bc32decode(cand)
+            except Exception:
+                r = None
+            if r is not None and pm != BC32_CONST:
+                return {"violated": True, "observed": f"bc32decode({cand}) = {bytes(r).hex()} although polymod = {pm:#x}"}
+            out.append((cand, pm, r))
+        # and every single substitution of the valid text must be refused
+        base = out[-1][0]
+        for pos in range(len(base)):
+            for ch in ALPHA:
+                if ch == base[pos]:
+                    continue
+                cand = base[:pos] + ch + base[pos + 1:]
+                try:
+                    r2 = bech32.bc32decode(cand)
+                except Exception:
+                    r2 = None
+                if r2 is not None:
+                    return {"violated": True, "observed": f"bc32decode accepts {cand}, one substitution (position {pos}) away from the valid text {base}"}
+        return {"violated": False, "observed": f"{len(out)} texts judged by the real polynomial; all single substitutions of {base} refused"}
+    m, subs = w["m"], [x for x in w["subs"] if x[1]]
+    rng = random.Random(m * 131 + sum(p for p, _ in subs))
+    tried = 0
+    ns = [n for n in range(0, m) if -(-8 * n // 5) + 6 == m]
+    for n in ns:
+        for payload in (bytes(n), bytes(range(1, n + 1)), bytes(rng.randrange(256) for _ in range(n))):
+            a = bech32.bc32encode(payload)
+            data = list(a)
+            for p, x in subs:
+                data[p] = ALPHA[ALPHA.find(data[p]) ^ x]
+            c = "".join(data)
+            if c == a:
+                continue
+            tried += 1
+            try:
+                r = bech32.bc32decode(c)
+            except Exception:
+                r = None
+            if r is not None:
+                return {"violated": True, "observed": f"bc32encode({payload.hex()}) = {a}; substituting {len(subs)} character(s) gives {c}, "
+                                                      f"which bc32decode accepts as {bytes(r).hex()}"}
+    if not ns:
+        # no payload has this text length: judge on the polynomial itself
+        a = [rng.randrange(32) for _ in range(m)]
+        b = list(a)
+        for p, x in subs:
+            b[p] ^= x
+        same = bech32.bech32_polymod([0] + a) == bech32.bech32_polymod([0] + b)
+        return {"violated": same and a != b, "observed": f"polymod of two texts differing in {len(subs)} position(s): {'equal' if same else 'different'}"}
+    return {"violated": False, "observed": f"{tried} corrupted texts, all refused"}
 
 
 # =============================================================================================== O3 BCUR
@@ -1654,6 +1869,15 @@ def obligations(tier):
     cl = list(range(1, (10 if q else 14) + 1))
     obs.append(Ob("O2-bc32-case", ob_bc32_case, {"lens": tuple(cl[:7]), "badlens": (8,)}, replay="bc32_case"))
     obs.append(Ob("O2-bc32-case", ob_bc32_case, {"lens": tuple(cl[7:]), "badlens": (12,)}, replay="bc32_case"))
+    # ---- O2b single / double substitution
+    sm = [-(-8 * n // 5) + 6 for n in range(0, (40 if q else 125) + 1)]
+    for g in _groups(sm, 6 if q else 9):
+        obs.append(Ob("O2b-bc32-substitution", ob_bc32_subst, {"ms": g}, replay="bc32_subst", budget_s=1700))
+    for g in _groups([-(-8 * n // 5) + 6 for n in range(0, (12 if q else 30) + 1)], 5):
+        obs.append(Ob("O2b-bc32-substitution-pairs", ob_bc32_subst, {"ms": g, "two": True}, replay="bc32_subst", budget_s=1700))
+    obs.append(Ob("O2b-polymod-step", ob_bc32_step, {}, replay="bc32_subst"))
+    for g in _groups(list(range(6, (26 if q else 46) + 1)), 6):
+        obs.append(Ob("O2b-bc32-acceptance", ob_bc32_accept, {"ms": g}, replay="bc32_subst"))
     # ---- O3 BCUR
     Ls = list(range(8, 201)) if q else list(range(8, 401)) + list(range(401, 2001, 27))
     for g in (_groups(Ls, 16) if q else _groups(Ls[:393], 24) + _groups(Ls[393:], 3)):
